@@ -63,6 +63,11 @@ def decodeStmt : SExp → Option Stmt
     some (.createIndex t n cs u usingT)
   | .list [.atom "dropIndex", .atom t, .atom n] => some (.dropIndex t n)
   | .list [.atom "commentOn", .atom t, .atom c, .atom x] => some (.commentOn t c x)
+  | .list [.atom "alterType", .atom t, .atom c, .atom typ] => some (.alterType t c typ)
+  | .list [.atom "setDefault", .atom t, .atom c, d] => do
+    let o ← decodeOpt d
+    some (.setDefault t c o.dflt)
+  | .list [.atom "dropNotNull", .atom t, .atom c] => some (.dropNotNull t c)
   | _ => none
 
 def decodeStmts (e : SExp) : Option (List Stmt) := do
